@@ -89,7 +89,9 @@ CLAIMED = {
         "trivial normalisation's apply/undo are empty; apply/undo/get_bin_efficiency and the helpers of their class they call assign no "
         "member of the object (no hidden state: the factor of a bin cannot depend on the object's history); data that apply/undo/get_bin_efficiency read and that set_up derives from the "
         "object's inputs is rebuilt by every successful set_up (the inputs can be changed in place between two calls, so a "
-        "'nothing changed' shortcut would leave stale factors). Efficiency values, "
+        "'nothing changed' shortcut would leave stale factors); apply/undo of a whole data set visit every (view/segment group, TOF bin) "
+        "once (one enumeration, one TOF loop, read-normalise-write per turn); bin-by-bin updates use exactly get_bin_efficiency(bin) "
+        "(for the kinds the property names). Efficiency values, "
         "ACF = exp(line integral), positivity are NOT decided.",
         technique="static analysis: sibling (dual) agreement of effect summaries with data-flow source signatures, must-pass-through, "
         "self-dependence of member updates in set_up",
@@ -120,7 +122,8 @@ CLAIMED = {
         "that value in the cell addressed by the same two indices and return it; every public setter clears _already_set_up, every "
         "function replacing an input of a cache drops that cache (line-integral caches, and every lazily computed member - found from "
         "the code as `const function recomputes M when M fails its sentinel test` - with the members its defining expression reads; "
-        "defect F17, fixed), process_data requires set-up. NOT decided: non-negativity, numerical "
+        "defect F17, fixed), process_data requires set-up; the set-up call chain leaves every scalar setting as the user gave it "
+        "(defect F21, fixed). NOT decided: non-negativity, numerical "
         "equality with a freshly configured simulation.",
         technique="static analysis: closed-form algebra (sympy) on extracted expression DAGs, sibling agreement, setter/cache invalidation "
         "must-pass-through",
@@ -131,7 +134,9 @@ CLAIMED = {
         "key plus (view,segment) subscripts cover every coordinate that distinguishes bins (no two bins share a cache entry); every "
         "computed row passes the TOF-kernel step exactly once before being cached or transformed (never a cached row), basic-bin mode "
         "caches before and full mode after the symmetry transformation; set_up empties the cache on every path and may return early "
-        "only under equality of every member it derives from its arguments; the ray-tracing matrix's setters clear already_setup and rows "
+        "only under equality of every member it derives from its arguments (each still holding the previous set_up's value at that "
+        "comparison); set_up of the ray-tracing and the interpolation matrix never assigns a setting (parsing key / set_* member), so "
+        "a later set_up starts from what the user asked for (defects F19, F20, fixed); the ray-tracing matrix's setters clear already_setup and rows "
         "are only computed after set_up; for each of the 16 symmetry operations the bin-level and view/segment-level maps agree branch by "
         "branch (affine summaries). every constructor path of the symmetries object ends with `90-degree view symmetry on => 180-degree view symmetry on` for all settings of the switches (abstract interpretation of member initialisers and body; the finder and the operation lookup rely on it). NOT decided: that the chosen symmetry operation maps the basic bin back to the requested bin, "
         "agreement with the image transformation, non-negativity / in-image / no duplicate voxel (ray-tracing numerics).",
@@ -146,7 +151,10 @@ CLAIMED = {
         "callee that initialises whenever it reports success); every function changing an input of the ring-difference tables resets "
         "ring_diff_arrays_computed; table elements shared between copies of the object are replaced by fresh objects before being filled; what a lazily "
         "built detector/bin table stores is computed from scanner-fixed quantities only (anything a setter can change later - "
-        "view mashing, number of views - is applied per call, not baked into the table - unless every setter of that input resets the table's flag). "
+        "view mashing, number of views - is applied per call, not baked into the table - unless every setter of that input resets the table's flag); the integer "
+        "division in the forward ring-pair map is exact: segments with one ring difference and odd (ring difference - offset) must be "
+        "rejected - today they are accepted with a warning: KNOWN FINDING F22 (ring pairs not partitioned for max_delta-truncated last "
+        "segments; replayed; not repaired, see DESIGN.md). "
         "NOT decided: that the interleaving formula and its hand inversion are mutual inverses, that the Michelogram formulas partition "
         "ring pairs, reported counts (modular arithmetic over runtime scanner parameters).",
         technique="static analysis: branch-structure duality check, must-pass-through with success-conditional callee summaries, "
